@@ -131,6 +131,78 @@ def ob_insert(ctx, fname, K, N, headers=None):
     return verdict(ctx, props, witness=wit, sample=lambda m: wit(m))
 
 
+LOOKALIKE_VALUES = {b'encoding': b'utf-16', b'length': b'2', b'indent': b'0', b'line_endings': b'dos', b'format': b'yaml',
+                    b'version': b'2.0', b'mimetype': b'x/y', b'type': b'binary', b'diff_type': b'binary'}
+
+
+def ob_lookalike(ctx, fname):
+    """unknown keys that *look like* options the library reads: case variants (symbolic choice per letter), the known
+    name plus one symbolic character as suffix or prefix; inserted before and after the real option"""
+    sections = FILES[fname]
+    crlf = fname.endswith('crlf')
+    base = _read(build(sections, crlf))
+    hi = ctx.choose(0, len(sections) - 1, 'header')
+    known = ctx.pick('like', sorted(LOOKALIKE_VALUES))
+    kind = ctx.pick('variant', ['case', 'suffix', 'prefix'])
+    if kind == 'case':
+        k = sym_bytes(ctx, 'k', len(known))
+        for e, c in zip(k.el, known):
+            if chr(c).isalpha():
+                ctx.assume(z3.Or(e == c, e == (c ^ 0x20)))
+            else:
+                ctx.assume(e == c)
+        ctx.assume(neg(k.eq_cond(known)))
+    elif kind == 'suffix':
+        x = sym_bytes(ctx, 'x', 1)
+        ctx.assume(nfa_formula(rb'[A-Za-z0-9_-]', x.el))
+        k = mk_seq(tuple(known) + x.el, bytes)
+    else:
+        x = sym_bytes(ctx, 'x', 1)
+        ctx.assume(nfa_formula(rb'[A-Za-z]', x.el))
+        k = mk_seq(x.el + tuple(known), bytes)
+    for kn in KNOWN + [b'diff_type']:
+        c = lift(k).eq_cond(kn)
+        if c is not False:
+            ctx.assume(neg(c))
+    v = LOOKALIKE_VALUES[known]
+    nopts = len(sections[hi][1])
+    pos = ctx.choose(0, nopts, 'pos')
+    extras = [(pos, k, v)]
+    data = build(sections, crlf, (hi, extras))
+    wit = lambda m: {'file': fname, 'data': model_bytes(m, data), 'header': hi,
+                     'added': [[model_bytes(m, k), v]]}
+    try:
+        recs = _read(data)
+    except PathTimeout:
+        raise
+    except Exception as e:
+        return viol('raised:%s' % type(e).__name__, dict(wit(ctx.model()), error=str(e)[:200]))
+    if len(recs) != len(base):
+        return viol('record-count', wit(ctx.model()))
+    props = []
+    for i, (r, b) in enumerate(zip(recs, base)):
+        for key in ('section', 'level', 'type', 'line'):
+            props.append(('%s-changed' % key, value_eq(r.get(key), b.get(key))))
+        for key in ('text', 'diff', 'metadata'):
+            if (key in r) != (key in b):
+                props.append(('content-key', False))
+            elif key in b:
+                props.append(('content-changed', value_eq(r[key], b[key])))
+        ro, bo = r['options'], b['options']
+        for k0, v0 in bo.items():
+            props.append(('known-option-changed', value_eq(ro.get(k0), v0)))
+        if i != hi:
+            props.append(('options-changed-elsewhere', len(ro) == len(bo)))
+        else:
+            props.append(('option-count', len(ro) == len(bo) + 1))
+            kstr = mk_seq([_w(e) for e in lift(k).el], str)
+            if kstr not in ro:
+                props.append(('added-option-missing', False))
+            else:
+                props.extend(_value_props(ro[kstr], v))
+    return verdict(ctx, props, witness=wit, sample=lambda m: wit(m))
+
+
 def obligations(tier):
     quick = tier == 'quick'
     obs = []
@@ -141,6 +213,11 @@ def obligations(tier):
                       desc='real reader on the base file and on the file with one unknown option (symbolic key/value '
                            'of 1..%d bytes each) inserted into any header at any position' % N,
                       bounds={'inserted': 1, 'key_len': [1, N], 'value_len': [1, N], 'headers': len(FILES[fname])}))
+    for fname in (['utf8'] if quick else list(FILES)):
+        obs.append(Ob('lookalike[%s]' % fname, ob_lookalike, dict(fname=fname), must_reach=['DiffXReader._read_header'],
+                      path_timeout=20, desc='unknown keys that look like known options (every case variant, known name + one '
+                      'symbolic character as suffix / prefix) with a conflicting value, in every header at every position',
+                      bounds={'known_names': len(LOOKALIKE_VALUES), 'variants': ['case', 'suffix', 'prefix']}))
     hs = [1, 8] if quick else [0, 1, 2, 4, 6, 8]
     N2 = 1 if quick else 2
     obs.append(Ob('insert2[utf8]', ob_insert, dict(fname='utf8', K=2, N=N2, headers=hs),
